@@ -153,11 +153,14 @@ def parse_k(line):
 
 
 def overflow_class(k):
-    """the request leaves the envelope of checkSCS_iff_partial: (count-1)*stride or the sums exceed int64"""
-    if k['start'] is None or k['count'] is None or k['stride'] is None:
+    """the request leaves the envelope of checkSCS_iff_partial: start+count, (count-1)*stride or
+    start+(count-1)*stride exceeds int64 (the sums/products of the original check_EEDGE)"""
+    if k['start'] is None or k['count'] is None:
         return False
-    for s, c, t in zip(k['start'], k['count'], k['stride']):
-        for v in (s + c, (c - 1) * t, s + (c - 1) * t):
+    strides = k['stride'] if k['stride'] is not None else [None] * len(k['start'])
+    for s, c, t in zip(k['start'], k['count'], strides):
+        vals = [s + c] if t is None else [s + c, (c - 1) * t, s + (c - 1) * t]
+        for v in vals:
             if not (-2**63 <= v < 2**63):
                 return True
     return False
